@@ -418,7 +418,7 @@ theorem LInv_step (S : SStream) (hsize : S.width ≤ 65535) (st st' : Link) (h :
   | packet now m cs d start ack bytes hm hb =>
     obtain ⟨n, hok, hby, hsub, hfirst⟩ := h.packets m hm cs d start ack bytes hb
     subst hby
-    obtain ⟨hinv', hh', hne', hge', hev', hsq', hle', _⟩ := L_stream_packet st.b S now start n h.rinv hok.pos hok.lo hok.hi
+    obtain ⟨hinv', hh', hne', hge', hev', hsq', hle', _, _⟩ := L_stream_packet st.b S now start n h.rinv hok.pos hok.lo hok.hi
       (fun h0 => Classical.byContradiction fun hc => hfirst hc h0) hsize hok.cap
     generalize hb' : st.b.decodeInputs now start (Codec.encode (S.refAt start) (S.slice start n)) = b' at *
     have hstay : st.b.lastRecvFrame ≠ NULL_FRAME → b'.lastRecvFrame ≠ NULL_FRAME := by
@@ -528,7 +528,7 @@ theorem L_link_recovers (S : SStream) (hsize : S.width ≤ 65535) (st : Link) (h
     · rw [hstart] at hlt hlen1 ⊢
       have hfirst : st.b.lastRecvFrame = NULL_FRAME → nextFrame st.b S = S.f0 := by
         intro h0; unfold nextFrame; simp [h0]
-      obtain ⟨_, _, _, _, _, _, _, heq⟩ := L_stream_packet st.b S now' (nextFrame st.b S)
+      obtain ⟨_, _, _, _, _, _, _, heq, _⟩ := L_stream_packet st.b S now' (nextFrame st.b S)
         ((S.f0 : Int) + st.k - nextFrame st.b S).toNat h.rinv (by omega) hnlo
         (by have := h.sinv.kle; unfold SStream.last; omega) hfirst hsize
         (slice_cap S hsize h.rinv.itemWidth _ _ hlen1)
@@ -536,7 +536,7 @@ theorem L_link_recovers (S : SStream) (hsize : S.width ≤ 65535) (st : Link) (h
     · rw [hstart] at hlt hlen1 ⊢
       have hfirst : st.b.lastRecvFrame = NULL_FRAME → nextFrame st.b S = S.f0 := by
         intro h0; unfold nextFrame; simp [h0]
-      obtain ⟨_, _, _, _, _, _, _, heq⟩ := L_stream_packet st.b S now' (nextFrame st.b S)
+      obtain ⟨_, _, _, _, _, _, _, heq, _⟩ := L_stream_packet st.b S now' (nextFrame st.b S)
         ((S.f0 : Int) + st.k - nextFrame st.b S).toNat h.rinv (by omega) hnlo
         (by have := h.sinv.kle; unfold SStream.last; omega) hfirst hsize
         (slice_cap S hsize h.rinv.itemWidth _ _ hlen1)
